@@ -46,7 +46,7 @@ def gen_spec(rng, n_m=4, n_p=3, n_v=3, pkg="vpk", p_hidden=0.15, p_explicit=0.2,
                 continue
             form = "bare"
             if c["kind"] == "u":
-                pass
+                form = "dead"
             elif c["module"] != n["module"]:
                 form = "attr"
             elif rng.random() < 0.15 and c["kind"] in "mp":
@@ -64,6 +64,67 @@ def gen_spec(rng, n_m=4, n_p=3, n_v=3, pkg="vpk", p_hidden=0.15, p_explicit=0.2,
 
 def node(spec, name):
     return next(n for n in spec["nodes"] if n["name"] == name)
+
+
+def def_lines(spec, n):
+    """source lines of one function definition, and the alias assignments it needs"""
+    mod = n["module"]
+    out, aliases = [], []
+    params = ["x"]
+    if n["default"] is not None:
+        params.append("d=%d" % n["default"])
+    if n["kwdefault"] is not None:
+        params.append("*")
+        params.append("kd=%d" % n["kwdefault"])
+    if n["kind"] == "m":
+        args = ["cluster=%r" % CL]
+        if n["explicit"] is not None:
+            args.append("version=%r" % n["explicit"])
+        out.append("@memento_function(%s)" % ", ".join(args))
+    out.append("def %s(%s):" % (n["name"], ", ".join(params)))
+    out.append("    _vt(('exec', %r, x))" % n["name"])
+    out.append("    if x <= 0:")
+    out.append("        return %d" % n["const"])
+    out.append("    r = %d" % n["const"])
+    if n["default"] is not None:
+        out.append("    r += d * 7")
+    if n["kwdefault"] is not None:
+        out.append("    r += kd * 11")
+    if n["setconst"] is not None:
+        out.append("    if x in {%s}:" % ", ".join(map(str, n["setconst"])))
+        out.append("        r += 13")
+    if n["tupconst"] is not None:
+        out.append("    r += (%d, %d)[x %% 2]" % tuple(n["tupconst"]))
+    if n["nested"] is not None:
+        out.append("    r += sum(v * %d for v in (1, 2))" % n["nested"])
+    if n.get("pair") is not None:
+        out.append("    r += x * %d + %d" % tuple(n["pair"]))
+    if n.get("sset") is not None:
+        out.append("    if str(x %% 5) in {%s}:" % ", ".join(repr(v) for v in n["sset"]))
+        out.append("        r += 17")
+    for rf in n["refs"]:
+        tname, form = rf[0], rf[1]
+        t = node(spec, tname)
+        if form == "attr":
+            ref = "%s.%s" % (t["module"], tname)
+        elif form == "alias":
+            ref = rf[2] if len(rf) > 2 else "al_%s_%s" % (n["name"], tname)
+            aliases.append("%s = %s" % (ref, tname))
+        else:
+            ref = tname
+        if t["kind"] == "u" or form == "dead":
+            out.append("    r += 0 if x > -5 else %s" % ref)
+        elif t["kind"] == "v":
+            out.append("    r += _num(%s)" % ref)
+        else:
+            out.append("    r += %s(x - 1)" % ref)
+    if n["hidden"] is not None:
+        h = node(spec, n["hidden"])
+        where = "globals()" if h["module"] == mod else "vars(%s)" % h["module"]
+        out.append("    r += %s[%r](x - 1)" % (where, n["hidden"]))
+    out.append("    return r")
+    out.append("")
+    return out, aliases
 
 
 def render_module(spec, mod, order_rng=None, plain=False):
@@ -93,64 +154,13 @@ def render_module(spec, mod, order_rng=None, plain=False):
     out.append("    if isinstance(v, dict): return sum(v.values()) * 5")
     out.append("    return 0")
     out.append("")
-    # aliases must exist before the functions that use them are CALLED, not defined: put them after all defs
     aliases = []
     for n in mine:
         if n["kind"] not in "mp":
             continue
-        params = ["x"]
-        if n["default"] is not None:
-            params.append("d=%d" % n["default"])
-        if n["kwdefault"] is not None:
-            params.append("*")
-            params.append("kd=%d" % n["kwdefault"])
-        if n["kind"] == "m":
-            args = ["cluster=%r" % CL]
-            if n["explicit"] is not None:
-                args.append("version=%r" % n["explicit"])
-            out.append("@memento_function(%s)" % ", ".join(args))
-        out.append("def %s(%s):" % (n["name"], ", ".join(params)))
-        out.append("    _vt(('exec', %r, x))" % n["name"])
-        out.append("    if x <= 0:")
-        out.append("        return %d" % n["const"])
-        out.append("    r = %d" % n["const"])
-        if n["default"] is not None:
-            out.append("    r += d * 7")
-        if n["kwdefault"] is not None:
-            out.append("    r += kd * 11")
-        if n["setconst"] is not None:
-            out.append("    if x in {%s}:" % ", ".join(map(str, n["setconst"])))
-            out.append("        r += 13")
-        if n["tupconst"] is not None:
-            out.append("    r += (%d, %d)[x %% 2]" % tuple(n["tupconst"]))
-        if n["nested"] is not None:
-            out.append("    r += sum(v * %d for v in (1, 2))" % n["nested"])
-        if n.get("pair") is not None:
-            out.append("    r += x * %d + %d" % tuple(n["pair"]))
-        if n.get("sset") is not None:
-            out.append("    if str(x %% 5) in {%s}:" % ", ".join(repr(v) for v in n["sset"]))
-            out.append("        r += 17")
-        for tname, form in n["refs"]:
-            t = node(spec, tname)
-            if form == "attr":
-                ref = "%s.%s" % (t["module"], tname)
-            elif form == "alias":
-                ref = "al_%s_%s" % (n["name"], tname)
-                aliases.append("%s = %s" % (ref, tname))
-            else:
-                ref = tname
-            if t["kind"] == "u":
-                out.append("    r += 0 if x > -5 else %s" % ref)
-            elif t["kind"] == "v":
-                out.append("    r += _num(%s)" % ref)
-            else:
-                out.append("    r += %s(x - 1)" % ref)
-        if n["hidden"] is not None:
-            h = node(spec, n["hidden"])
-            where = "globals()" if h["module"] == mod else "vars(%s)" % h["module"]
-            out.append("    r += %s[%r](x - 1)" % (where, n["hidden"]))
-        out.append("    return r")
-        out.append("")
+        lines, als = def_lines(spec, n)
+        out += lines
+        aliases += als
     out += aliases
     return "\n".join(out) + "\n"
 
@@ -409,3 +419,80 @@ def run_inproc(root, pkg, editions, store=None, hashseed="0", timeout=180):
         if line.startswith("@@RESULT@@"):
             return json.loads(line[len("@@RESULT@@"):])
     raise RuntimeError("in-process run failed: %s" % (p.stderr[-800:] or p.stdout[-400:]))
+
+
+# ---- event histories inside one interpreter (C13) ---------------------------------------------
+
+EVENTS = r'''
+import builtins, importlib, json, linecache, os, sys
+cfg = json.loads(sys.argv[1])
+sys.path.insert(0, cfg["repo"]); sys.path.insert(0, cfg["root"])
+os.environ["HOME"] = cfg["root"]
+import logging; logging.disable(logging.CRITICAL)
+import warnings; warnings.filterwarnings("ignore")
+import twosigma.memento as m
+from twosigma.memento.memento import MementoFunction
+from twosigma.memento.storage_memory import MemoryStorageBackend
+m.Environment.set(m.Environment(name="e", base_dir=cfg["root"], repos=[m.ConfigurationRepository(name="r", clusters={cfg["cluster"]: m.FunctionCluster(name=cfg["cluster"], storage=MemoryStorageBackend())})]))
+builtins._vt = [].append
+mods = {mod: importlib.import_module(cfg["pkg"] + "." + mod) for mod in cfg.get("import_order", ["a", "b"])}
+extra = {}
+def fn(name):
+    if name in extra:
+        return extra[name]
+    for mod in "ab":
+        f = getattr(mods[mod], name, None)
+        if f is not None and getattr(f, "__module__", "").endswith("." + mod):
+            return f
+out = []
+snip = 0
+for ev in cfg["events"]:
+    op = ev["op"]
+    try:
+        if op == "exec":
+            snip += 1
+            fname = os.path.join(cfg["root"], "snip%d.py" % snip)
+            with open(fname, "w") as f:
+                f.write(ev["src"])
+            linecache.checkcache(fname)
+            exec(compile(ev["src"], fname, "exec"), mods[ev["mod"]].__dict__)
+        elif op == "setattr":
+            setattr(mods[ev["mod"]], ev["name"], ev["value"])
+        elif op == "alias":
+            setattr(mods[ev["mod"]], ev["name"], fn(ev["target"]))
+        elif op == "mutate":
+            v = getattr(mods[ev["mod"]], ev["name"])
+            if isinstance(v, list):
+                v.append(ev["value"])
+            else:
+                v["k"] = ev["value"]
+        elif op == "clone":
+            f = fn(ev["fn"])
+            extra[ev["as"]] = {"partial": lambda: f.partial(), "force_local": lambda: f.force_local(), "ignore_result": lambda: f.ignore_result(),
+                               "with_context_args": lambda: f.with_context_args({"q": 1})}[ev["how"]]()
+        elif op == "wrapper":
+            f = fn(ev["fn"])
+            extra[ev["as"]] = MementoFunction(fn=f.fn, cluster_name=f.cluster_name, version=f.explicit_version, register_fn=False)
+        elif op == "query":
+            res = {}
+            for name in ev["names"]:
+                try:
+                    res[name] = fn(name).version()
+                except Exception as e:
+                    res[name] = "ERR:" + type(e).__name__ + ":" + str(e)[:80]
+            out.append(res)
+    except Exception as e:
+        out.append({"__event_failed__": op + ":" + type(e).__name__ + ":" + str(e)[:200]})
+print("@@RESULT@@" + json.dumps(out))
+'''
+
+
+def run_events(root, spec, events, hashseed="0", timeout=180):
+    """root holds a rendering of the initial spec"""
+    cfg = {"repo": C.REPO, "root": root, "pkg": spec["pkg"], "cluster": CL, "events": events}
+    env = dict(os.environ, PYTHONHASHSEED=str(hashseed), PYTHONDONTWRITEBYTECODE="1")
+    p = subprocess.run([C.PY, "-c", EVENTS, json.dumps(cfg)], capture_output=True, text=True, timeout=timeout, env=env)
+    for line in p.stdout.splitlines():
+        if line.startswith("@@RESULT@@"):
+            return json.loads(line[len("@@RESULT@@"):])
+    raise RuntimeError("event run failed: %s" % (p.stderr[-800:] or p.stdout[-400:]))
